@@ -113,8 +113,18 @@ func (cg *chainGen) cmpChain(kind int, tok, conn string, n, j, assoc int, mixed 
 		}
 	}
 	ops := make([]*filt.DExpr, n)
+	var prev *filt.DExpr
 	for i, v := range vs {
 		c := cg.valueAt(kind, v, j)
+		if prev != nil && cg.rng.Intn(3) == 0 {
+			c = prev // the same constant as the operand before, mostly about another capture
+		}
+		prev = c
+		if cg.rng.Intn(6) == 0 {
+			// a comparison of two captures among the constant ones (the same kind and operator)
+			ops[i] = filt.Bin(tok, operand(kind, v), operand(kind, vars[cg.rng.Intn(2)]))
+			continue
+		}
 		if (tok == "EQL" || tok == "NEQ") && cg.rng.Intn(3) == 0 {
 			ops[i] = filt.Bin(tok, c, operand(kind, v))
 		} else {
